@@ -34,8 +34,11 @@ pub const V_PRELUDE: &str = "#![allow(dead_code, unused_imports, unused_variable
 
 fn check_args(macro_profile: &str) -> Vec<&'static str> {
     let mut a = vec!["check", "--offline", "--message-format=json"];
-    if macro_profile == "release" {
+    if macro_profile.starts_with("release") {
         a.push("--release");
+    }
+    if macro_profile.ends_with("-tests") {
+        a.push("--tests");
     }
     a
 }
